@@ -4,7 +4,7 @@
 # overlay maps every /repo file that differs (and every instrumented file) onto the copy. Evidence and
 # replay files go to a scratch directory; known findings and baselines are the committed ones.
 set -u
-ID="$1"; PATCH="$2"; TIER="${3:-quick}"
+ID="$1"; PATCH="$(realpath "$2")"; TIER="${3:-quick}"
 export GOFLAGS=-mod=mod GOPROXY=off GOSUMDB=off GOTOOLCHAIN=local CGO_ENABLED=0
 ROOT=/verif
 MUT=$(mktemp -d /tmp/mutrepo.XXXXXX)
